@@ -331,7 +331,13 @@ func judge(msg string, position token.Position, d *disk, rep int, limit int, agg
 		agg.Inc("probe.no_excerpt_after_failed_read")
 		return nil
 	}
+	// a reporter that has itself been served the file must show one of the versions IT
+	// was served (its own cache is fine, somebody else's stale copy is not); one that
+	// never read it may show what any reporter was served (a shared cache)
 	versions := d.served[name]
+	if own := d.servedTo[rep][name]; len(own) > 0 {
+		versions = own
+	}
 	var firstWhy string
 	bestScore := -1
 	// newest first: the common case
